@@ -4,6 +4,7 @@ import (
 	"fmt"
 	"go/ast"
 	"go/token"
+	"sort"
 	"strconv"
 	"strings"
 )
@@ -17,6 +18,18 @@ func init() { families = append(families, family{"C13", genC13}) }
 //   - the regular expression of file.IsValidFileName and the names it rejects up front,
 //   - the fixed prefix of dir.X509TrustStoreDir,
 //   - every use GetCertificates makes of its context parameter.
+// isParam: is name a parameter of fd?
+func isParam(fd *ast.FuncDecl, name string) bool {
+	for _, p := range fd.Type.Params.List {
+		for _, n := range p.Names {
+			if n.Name == name {
+				return true
+			}
+		}
+	}
+	return false
+}
+
 func genC13() string {
 	var b strings.Builder
 	const tsFile = "verifier/truststore/truststore.go"
@@ -42,22 +55,12 @@ func genC13() string {
 		}
 		types = append(types, constVal(id.Name))
 	}
-	fmt.Fprintf(&b, "/-- `truststore.Types` of %s (values of the constants listed) -/\ndef c13StoreTypes : List String := %s\n\n", tsFile, leanStrList(types))
+	sort.Strings(types) // a set: only membership is tested
+	fmt.Fprintf(&b, "/-- `truststore.Types` of %s (values of the constants listed, sorted) -/\ndef c13StoreTypes : List String := %s\n\n", tsFile, leanStrList(types))
 	for _, c := range []string{"TypeCA", "TypeSigningAuthority", "TypeTSA"} {
 		fmt.Fprintf(&b, "def c13%s : String := %s\n", c, leanStr(constVal(c)))
 	}
 	b.WriteString("\n")
-
-	// isValidStoreType must be membership in Types
-	ivt := mustFunc(tf, tsFile, "", "isValidStoreType")
-	memb := false
-	ast.Inspect(ivt.Body, func(n ast.Node) bool {
-		if c, ok := n.(*ast.CallExpr); ok && callName(c) == "slices.Contains" && len(c.Args) == 2 && exprText(c.Args[0]) == "Types" {
-			memb = true
-		}
-		return true
-	})
-	fmt.Fprintf(&b, "/-- `isValidStoreType` is `slices.Contains(Types, storeType)` -/\ndef c13TypeCheckIsMembership : Bool := %s\n\n", leanBool(memb))
 
 	gc := mustFunc(tf, tsFile, "x509TrustStore", "GetCertificates")
 	// the guard around the isRootCACertificate loop: `if storeType == <Const> { ... isRootCACertificate ... }`
@@ -68,13 +71,20 @@ func genC13() string {
 			return true
 		}
 		be, ok := is.Cond.(*ast.BinaryExpr)
-		if !ok || be.Op != token.EQL || exprText(be.X) != "storeType" {
+		if !ok || be.Op != token.EQL {
+			return true
+		}
+		// `storeType == TypeX` or `TypeX == storeType`: the operand that is not a parameter of the function
+		other := be.Y
+		if isParam(gc, exprText(be.Y)) {
+			other = be.X
+		} else if !isParam(gc, exprText(be.X)) {
 			return true
 		}
 		if len(callsIn(is.Body, "isRootCACertificate")) == 0 {
 			return true
 		}
-		id, ok := be.Y.(*ast.Ident)
+		id, ok := other.(*ast.Ident)
 		if !ok {
 			fail("%s: the store type guarding isRootCACertificate is not a constant", tsFile)
 		}
@@ -84,6 +94,7 @@ func genC13() string {
 	if len(callsIn(gc.Body, "isRootCACertificate")) == 0 {
 		fail("%s: GetCertificates no longer calls isRootCACertificate", tsFile)
 	}
+	sort.Strings(rootTypes)
 	fmt.Fprintf(&b, "/-- store types for which `GetCertificates` demands `isRootCACertificate` of every certificate -/\ndef c13RootCheckedTypes : List String := %s\n\n", leanStrList(rootTypes))
 
 	// uses of the context parameter: method calls on it ("ctx.Err") and calls it is handed to ("arg:log.GetLogger")
@@ -178,6 +189,11 @@ func genC13() string {
 			if x.Op == token.EQL {
 				id, ok1 := x.X.(*ast.Ident)
 				bl, ok2 := x.Y.(*ast.BasicLit)
+				if !ok1 || !ok2 {
+					// "lit" == fileName
+					id, ok1 = x.Y.(*ast.Ident)
+					bl, ok2 = x.X.(*ast.BasicLit)
+				}
 				if ok1 && ok2 && id.Name == param && bl.Kind == token.STRING {
 					v, _ := strconv.Unquote(bl.Value)
 					rejected = append(rejected, v)
@@ -201,7 +217,8 @@ func genC13() string {
 			rejected = save
 		}
 	}
-	fmt.Fprintf(&b, "/-- names `file.IsValidFileName` rejects before consulting the regular expression -/\ndef c13RejectedNames : List String := %s\n\n", leanStrList(rejected))
+	sort.Strings(rejected) // a set: the order of the comparisons in the source does not matter
+	fmt.Fprintf(&b, "/-- names `file.IsValidFileName` rejects before consulting the regular expression (sorted) -/\ndef c13RejectedNames : List String := %s\n\n", leanStrList(rejected))
 
 	// dir.X509TrustStoreDir: pathItems := []string{TrustStoreDir, "x509"}
 	const pfile = "dir/path.go"
